@@ -210,6 +210,24 @@ def check_case(c, ctx):
         ctx.inconclusive += 1
 
 
+def check_long_prefix(ctx):
+    """an address prefix that would make the address longer than 90 characters (not a valid bech32m string any more) is refused, the longest admissible one works"""
+    d, px = keypair(3)
+    for n, ok in ((30, True), (31, False), (40, False), (83, False)):
+        r = run_tap(['--addrprefix=' + 'a' * n, px.hex(), '1', '0x51'], tty=False)
+        ctx.case('long-prefix-%d' % n, True, dict(prefix_length=n), 'prefix-length')
+        m = ADDR.search(r.out.decode(errors='replace'))
+        if ok:
+            dec = B.segwit_decode(m.group(1)) if m else None
+            if r.rc != 0 or dec is None or len(m.group(1)) > 90:
+                ctx.violations.append(dict(campaign='prefix-length', why='a %d-character prefix must give a valid address of at most 90 characters: %r' % (n, r.out[-120:]), case=dict(prefix_length=n), refails=3))
+                return
+        elif r.rc == 0 and m:
+            ctx.violations.append(dict(campaign='prefix-length', why='a %d-character prefix gives the %d-character string %s, which is not a valid bech32m address (limit 90)' % (n, len(m.group(1)), m.group(1)[:40] + '...'),
+                                       case=dict(prefix_length=n), observed=len(m.group(1)), refails=3))
+            return
+
+
 def check_keypath(c, ctx):
     """key-path mode: tap --tx --txin <P> <n> <scripts...> (no index): sighash = BIP341 key-path digest; a signature with the tweaked secret validates"""
     n = c['n']
@@ -289,12 +307,17 @@ def random_cases(draw):
     kinds = draw(st.lists(st.sampled_from(['drop', 'same', 'checksig', 'args', 'big', 'zero00', 'zero00', 'ffff', 'codesep']), min_size=1, max_size=5))
     if n > 100:
         kinds = [k for k in kinds if k != 'big'] or ['drop']
-    prefix = draw(st.one_of(st.sampled_from(PREFIXES), st.text(alphabet='abcdefghijklmnopqrstuvwxyz', min_size=1, max_size=8)))
+    # (the longest prefix that still gives an address of at most 90 characters is 30 characters long; longer ones must be refused - see check_long_prefix)
+    prefix = draw(st.one_of(st.sampled_from(PREFIXES), st.text(alphabet='abcdefghijklmnopqrstuvwxyz', min_size=1, max_size=8), st.sampled_from(['a' * 29, 'b' * 30, 'q' * 30])))
     return build_case(n, idx, kinds, draw(st.integers(0, 200)), prefix)
 
 
 def w_random(ctx, wid, seed, examples):
     core.hyp_campaign(ctx, 'random', random_cases(), check_case, examples, seed, case_json)
+
+
+def w_prefix_length(ctx, wid, seed):
+    check_long_prefix(ctx)
 
 
 def w_keypath(ctx, wid, seed, examples):
@@ -307,7 +330,7 @@ def run(tier, t0):
     pairs = [(n, i) for n in range(1, maxn + 1) for i in range(n)]
     chunks = [pairs[k::W] for k in range(W)]
     nr, nk = (90, 40) if tier == 'quick' else (4000, 1200)
-    tasks = [(w_grid, dict(pairs=ch)) for ch in chunks] + [(w_random, dict(examples=nr)) for _ in range(W // 2)] + [(w_keypath, dict(examples=nk)) for _ in range(W // 4)]
+    tasks = [(w_grid, dict(pairs=ch)) for ch in chunks] + [(w_random, dict(examples=nr)) for _ in range(W // 2)] + [(w_keypath, dict(examples=nk)) for _ in range(W // 4)] + [(w_prefix_length, dict())]
     m = core.parallel(PID, tasks)
     m.exhaustive = False
     return core.finish(PID, tier, m, RULE, t0, min_nontrivial=120 if tier == 'quick' else 2000, extra=dict(grid='every (n, index) with 1 <= n <= %d: %d pairs' % (maxn, len(pairs))),
